@@ -663,9 +663,9 @@ def regressions(ctx):
 
 def run(ctx):
     regressions(ctx)
-    setdata_tie(ctx, ctx.scale(100, 2500), ctx.scale(14, 20))
-    key_tie(ctx, ctx.scale(100, 2500), ctx.scale(14, 20))
-    S.explore(ctx, 'C10', ctx.scale(200, 5000), ctx.scale(22, 30))
+    setdata_tie(ctx, ctx.scale(100, 900), ctx.scale(14, 20))
+    key_tie(ctx, ctx.scale(100, 900), ctx.scale(14, 20))
+    S.explore(ctx, 'C10', ctx.scale(200, 1300), ctx.scale(22, 30))
 
 
 def replay(ctx, data):
